@@ -35,6 +35,8 @@ func main() {
 	selftest := flag.Bool("selftest", false, "also run the mutants/twins of this property")
 	only := flag.String("only", "", "restrict the self-test to mutants whose name contains this")
 	explain := flag.String("explain", "", "print a replay file in readable form")
+	genInv := flag.Bool("geninventory", false, "print the inventory (functions, struct fields) of the analysed tree as JSON; written to checker/inventory.json when the rules are re-confirmed")
+	flag.BoolVar(&noNormalize, "nonormalize", false, "analyse the source as it is (no rename-back, no inlining of new helpers)")
 	var overlays multiFlag
 	flag.Var(&overlays, "overlay", "repo-relative-file=replacement-file (self-test only)")
 	flag.Parse()
@@ -45,6 +47,17 @@ func main() {
 	}
 	if os.Getenv("GOGC") == "" {
 		debug.SetGCPercent(300)
+	}
+	if *genInv {
+		noNormalize = true
+		w, err := Load(*repo, "", "", nil, false)
+		if err != nil {
+			fmt.Println("TOOLING-ERROR:", err)
+			os.Exit(2)
+		}
+		b, _ := json.MarshalIndent(buildInventory(w.Init), "", " ")
+		fmt.Println(string(b))
+		return
 	}
 	if *explain != "" {
 		b, err := os.ReadFile(*explain)
